@@ -17,15 +17,21 @@ to that list and a second walk replaces every placeholder by the value looked up
 * `C12_fill` (T12.2), all schemas / trees / value lists of the reported length (placeholder identities distinct):
   no IndexError, no value left, and the (placeholder, value) pairs made by the walk are a permutation of pairing the
   i-th placeholder *in textual order* with the i-th value — none unbound, none bound twice; nothing else is replaced.
-* `C12_visits` (coverage): on an `okTree` the walk of `fill` visits exactly `expected` (every required node), so every
-  placeholder in a required position is found; needs `phi12`.  Placeholders in positions the walker does not reach are
-  the open part (C13's coverage is complete on the probed schema; its four *order* deviations no longer matter here).
+* `C12_visits` (coverage): on an `okTree` both walks visit exactly `expected` (every required node), so every placeholder
+  in a required position is found; needs `phi12`.  Since the walker's order deviations are repaired, `okTree` holds for
+  ordinary statements of the probed schema (`Props.C13.phi13_samples`, `C12_samples`, `okQ`, `wUpdate`); outside it are only
+  CREATE TABLE statements with column objects.  `C12_review_visits_reordered` is the general form for walkers that deviate
+  in order only.
 * `phi12_markers`: the probed markers of `sort_by_text_position` are pairwise infix-free (what the print-position model
   of the marker search assumes).
 * `C12_execute`, `C12_mismatch` (T12.4).  `C12_partial` bundles the above for the probed schema.
-* regression theorems for repaired defects: `C12_update_textual` (c3aa76c: `UPDATE … SET a=?, b=? WHERE c=?` binds
-  in textual order although WHERE is visited first), `C12_case_operand`, `C12_from_arg`, `C12_second_execute`,
+* `C12_samples`: on parser trees of real statements (regenerated on every run) the hypotheses of `C12_textual` / `C12_fill`
+  hold and the placeholders are reported in written order.
+* regression theorems for repaired defects: `C12_update_textual` (live walker), `C12_update_textual_oldwalker` (history:
+  with WHERE walked first, binding is still by written position), `C12_case_operand`, `C12_from_arg`, `C12_second_execute`,
   `C12_info_after_execute`, `C12_keeps_alias`.
+Not in the model: `C12_count` counts what the walk visits, not the `?` of the text (the link is the coverage clause plus the
+parser; checked on the real code by the impl-level oracle of the check).
 Planning of the filled tree (`plan_query`) is outside this model; the check compares plans on the real code.
 -/
 namespace MindsVerif.Props.C12
@@ -238,16 +244,33 @@ def sid (c s : String) : Nat := (Schema.slotNames.getD (cid c) []).findIdx (· =
 def param (c s : String) (tag : Nat) : Node := .mk P (sid c s) tag []
 def ident (c s : String) (tag : Nat) : Node := .mk (cid "Identifier") (sid c s) tag []
 
-/-- (regression, fixed by c3aa76c) `UPDATE t SET a = ?, b = ? WHERE c = ?`: the walker visits the WHERE placeholder
-(4) first, but the placeholders are reported and bound in the order they are written -/
+/-- `UPDATE t SET a = ?, b = ? WHERE c = ?` -/
 def wUpdate : Node := .mk (cid "Update") 0 0
   [ident "Update" "table" 1, param "Update" "update_columns" 2, param "Update" "update_columns" 3,
    param "Update" "where" 4]
+
+/-- (regression, c3aa76c + 66230b1) the placeholders are visited, reported and bound in the order they are written -/
 theorem C12_update_textual :
-    ((walk σ (cbFind P) wUpdate []).log.filter (isP P)).map Visit.tag = [some 4, some 2, some 3]
+    ((walk σ (cbFind P) wUpdate []).log.filter (isP P)).map Visit.tag = [some 2, some 3, some 4]
     ∧ (getParams σ P wUpdate).map Node.tag = [2, 3, 4]
-    ∧ bindings P (fillParams σ P C wUpdate [10, 20, 30]).out = [(some 4, some 30), (some 2, some 10), (some 3, some 20)]
-    ∧ rendered σ P wUpdate = true := by
+    ∧ bindings P (fillParams σ P C wUpdate [10, 20, 30]).out = [(some 2, some 10), (some 3, some 20), (some 4, some 30)]
+    ∧ rendered σ P wUpdate = true ∧ okTree σ wUpdate = true := by
+  decide +kernel
+
+/-- the walker as it was before 66230b1 (history): the `Update` branch traverses WHERE before the SET values -/
+def σOldUpdate : Schema :=
+  σ.modify (cid "Update") fun r =>
+    { r with walk := r.walk.filter (fun e => e.slot == sid "Update" "table")
+                  ++ r.walk.filter (fun e => e.slot == sid "Update" "where")
+                  ++ r.walk.filter (fun e => e.slot != sid "Update" "table" && e.slot != sid "Update" "where") }
+
+/-- (history: old variant of the walker) binding by written position does not depend on the walker's order: with WHERE
+visited first (placeholder 4) the placeholders are still reported and bound as written (c3aa76c) -/
+theorem C12_update_textual_oldwalker :
+    ((walk σOldUpdate (cbFind P) wUpdate []).log.filter (isP P)).map Visit.tag = [some 4, some 2, some 3]
+    ∧ (getParams σOldUpdate P wUpdate).map Node.tag = [2, 3, 4]
+    ∧ bindings P (fillParams σOldUpdate P C wUpdate [10, 20, 30]).out
+        = [(some 4, some 30), (some 2, some 10), (some 3, some 20)] := by
   decide +kernel
 
 /-- (regression, fixed by a58885a) `SELECT CASE ? WHEN ? THEN ? END`: all 3 placeholders are found, operand first -/
@@ -284,7 +307,7 @@ theorem C12_keeps_alias :
 
 /-! ### non-vacuity -/
 
-/-- `SELECT ?, f(?) FROM (SELECT ? …) WHERE a = ?`: a subquery in FROM is visited first, reported third -/
+/-- `SELECT ?, f(?) FROM (SELECT ? …) WHERE a = ?` -/
 def okQ : Node := .mk (cid "Select") 0 0
   [param "Select" "targets" 1,
    .mk (cid "Function") (sid "Select" "targets") 2 [param "Function" "args" 3],
@@ -293,18 +316,29 @@ def okQ : Node := .mk (cid "Select") 0 0
 example : rendered σ P okQ = true ∧ (getParams σ P okQ).map Node.tag = [1, 3, 8, 6]
     ∧ ((getParams σ P okQ).map Node.tag).Nodup := by decide +kernel
 example : bindings P (fillParams σ P C okQ [10, 20, 30, 40]).out
-    = [(some 8, some 30), (some 1, some 10), (some 3, some 20), (some 6, some 40)] := by decide +kernel
+    = [(some 1, some 10), (some 3, some 20), (some 8, some 30), (some 6, some 40)] := by decide +kernel
+example : okTree σ okQ = true := by decide +kernel
 /-- a tree satisfying the coverage hypothesis -/
 example : okTree σ (.mk (cid "Select") 0 0 [param "Select" "targets" 1,
     .mk (cid "BinaryOperation") (sid "Select" "where") 4 [ident "BinaryOperation" "args" 5, param "BinaryOperation" "args" 6]]) = true := by
   decide +kernel
 
-/-! ### [review] coverage for ordinary statements
+/-! ### real statements with placeholders (parser trees emitted by the extractor on every run) -/
 
-`C12_visits` needs `okTree σ q`, which fails for every statement with `SELECT … FROM …`, a JOIN or `UPDATE … SET … WHERE`
-(the walker's order deviations, see `Props/C13.lean`) — e.g. for `okQ` above.  The order in which the walker meets the
-placeholders is irrelevant for C12 (`C12_textual`, `C12_fill` sort / look up by identity), so coverage is stated on the
-re-ordered schema: both walks visit exactly the required nodes (each once, with the right flags). -/
+/-- for every sample statement: the found placeholders are rendered and have distinct identities (the hypotheses of
+`C12_textual` and `C12_fill`), and they are reported in the order they are written -/
+theorem C12_samples : Schema.sampleTrees.all (fun t =>
+      rendered σ P t && decide ((getParams σ P t).map Node.tag).Nodup
+      && ((getParams σ P t).map Node.tag == (textOrder σ t).filter (fun x => (getParams σ P t).any (·.tag == x)))) = true
+    ∧ (Schema.sampleTrees.map (fun t => (getParams σ P t).length)).sum = 7 := by decide +kernel
+
+/-! ### [review] coverage for walkers that deviate only in the visiting order (general)
+
+Contributed by the independent review when `okTree σ q` failed for every statement with `SELECT … FROM …`, a JOIN or
+`UPDATE … SET … WHERE` because of the walker's order deviations.  These are repaired in the library: `C12_visits` now applies
+to ordinary statements on the probed schema (`okQ`, `wUpdate`, `Props.C13.phi13_samples`).  The theorem stays as a general
+statement for any schema: the order in which a walker meets the placeholders is irrelevant for C12 (`C12_textual`, `C12_fill`
+sort / look up by identity), so coverage can be read on the re-ordered schema. -/
 
 -- [review]
 open MindsVerif.Props.C13 (reorder walk_congr sameWalk_reorder) in
@@ -318,8 +352,9 @@ theorem C12_review_visits_reordered (σ : Schema) (P C : Nat) (hP : (σ.row P).w
       walk_congr (reorder σ) σ (sameWalk_reorder σ) (cbFillMap P C values) q ()] at h
   exact h
 
--- [review] `okQ` (sub-query in FROM) and `wUpdate` are outside `C12_visits` but inside the re-ordered version
-example : okTree σ okQ = false ∧ okTree (MindsVerif.Props.C13.reorder σ) okQ = true
-    ∧ okTree σ wUpdate = false ∧ okTree (MindsVerif.Props.C13.reorder σ) wUpdate = true := by decide +kernel
+-- [review, history] with the old walker `okQ` (sub-query in FROM) and `wUpdate` were outside `C12_visits` and inside the
+-- re-ordered version; with the repaired walker they are inside both
+example : okTree σ okQ = true ∧ okTree (MindsVerif.Props.C13.reorder σ) okQ = true
+    ∧ okTree σ wUpdate = true ∧ okTree (MindsVerif.Props.C13.reorder σ) wUpdate = true := by decide +kernel
 
 end MindsVerif.Props.C12
